@@ -515,13 +515,82 @@ fn case_inbody(input: &Input, ctx: &mut Ctx) -> CaseResult {
     Ok(())
 }
 
+/// Over-long forms at the in-body sites: four bytes with the continuation bit set, then any fifth byte or nothing at
+/// all. Whatever the site (a property length, a will property length, a Subscription Identifier), every front-end
+/// answers InvalidVarByteInt — no value is made up from the low bits, no fifth byte is consumed as part of the integer.
+/// nums = [site, index of the four digits]; all 257 continuations (none, 0x00..=0xFF) are run.
+const OVERLONG_SITES: usize = 12;
+fn overlong_frame(site: usize, pat: &[u8]) -> Vec<u8> {
+    let mut body: Vec<u8> = Vec::new();
+    let first: u8;
+    let pl = |n: usize| (1 + n) as u8; // property length of a section that holds 0x0B + the pattern
+    match site {
+        0 => { first = 0x30; body.extend_from_slice(&[0, 1, b'a', pl(pat.len()), 0x0B]); body.extend_from_slice(pat); }
+        1 => { first = 0x82; body.extend_from_slice(&[0, 1, pl(pat.len()), 0x0B]); body.extend_from_slice(pat); body.extend_from_slice(&[0, 1, b'a', 0]); }
+        2 => { first = 0x30; body.extend_from_slice(&[0, 1, b'a']); body.extend_from_slice(pat); body.extend_from_slice(b"xyz"); }
+        3 => { first = 0x20; body.extend_from_slice(&[0, 0]); body.extend_from_slice(pat); }
+        4 => {
+            first = 0x10;
+            body.extend_from_slice(&[0, 4, b'M', b'Q', b'T', b'T', 5, 0x04, 0, 0, 0, 0, 0]);
+            body.extend_from_slice(pat);
+            body.extend_from_slice(&[0, 1, b't', 0, 0]);
+        }
+        5 => { first = 0xE0; body.push(0); body.extend_from_slice(pat); }
+        6 => { first = 0xF0; body.push(0); body.extend_from_slice(pat); }
+        7 => { first = 0x40; body.extend_from_slice(&[0, 1, 0]); body.extend_from_slice(pat); }
+        8 => { first = 0x90; body.extend_from_slice(&[0, 1]); body.extend_from_slice(pat); body.push(0); }
+        9 => { first = 0xA2; body.extend_from_slice(&[0, 1]); body.extend_from_slice(pat); body.extend_from_slice(&[0, 1, b'a']); }
+        10 => { first = 0x10; body.extend_from_slice(&[0, 4, b'M', b'Q', b'T', b'T', 5, 0x02, 0, 0]); body.extend_from_slice(pat); body.extend_from_slice(&[0, 0]); }
+        _ => { first = 0x62; body.extend_from_slice(&[0, 1, 0]); body.extend_from_slice(pat); }
+    }
+    let mut f = vec![first];
+    f.extend_from_slice(&model_bytes(body.len() as u64));
+    f.extend_from_slice(&body);
+    f
+}
+
+fn case_inbody_overlong(input: &Input, ctx: &mut Ctx) -> CaseResult {
+    let n = input.nums();
+    let site = n[0] as usize % OVERLONG_SITES;
+    const DIGITS: [u8; 4] = [0x80, 0x81, 0xFF, 0xAA];
+    let di = n[1] as usize;
+    let four = [DIGITS[di & 3], DIGITS[(di >> 2) & 3], DIGITS[(di >> 4) & 3], DIGITS[(di >> 6) & 3]];
+    let want: v5::ErrorV5 = Error::InvalidVarByteInt.into();
+    for fifth in -1i32..=255 {
+        let mut pat = four.to_vec();
+        if fifth >= 0 {
+            pat.push(fifth as u8);
+        }
+        let frame = overlong_frame(site, &pat);
+        let mut stream = frame.clone();
+        stream.extend_from_slice(&[0xC0, 0x00]);
+        let what = || format!("v5 frame {} (in-body variable byte integer spelled {} at site {})", hex(&frame), hex(&pat), ["Subscription Identifier of a PUBLISH", "Subscription Identifier of a SUBSCRIBE", "property length of a PUBLISH", "property length of a CONNACK", "will property length of a CONNECT", "property length of a DISCONNECT", "property length of an AUTH", "property length of a PUBACK", "property length of a SUBACK", "property length of an UNSUBSCRIBE", "property length of a CONNECT", "property length of a PUBREL"][site]);
+        let poll = crate::fam::dec_poll::<V5>(&stream).result;
+        ensure!(matches!(&poll, Err(e) if *e == want), "poll decoder on {} returned {:?} instead of InvalidVarByteInt", what(), poll.as_ref().map(|o| (o.total, &o.pkt)));
+        let (asy, _) = crate::fam::dec_async::<V5>(&stream);
+        ensure!(matches!(&asy, Err(e) if *e == want), "async decoder on {} returned {:?} instead of InvalidVarByteInt", what(), asy);
+        let blk = v5::Packet::decode(&stream);
+        ensure!(matches!(&blk, Err(e) if *e == want), "blocking decoder on {} returned {:?} instead of InvalidVarByteInt", what(), blk);
+        let blk = v5::Packet::decode(&frame);
+        ensure!(matches!(&blk, Err(e) if *e == want), "blocking decoder on exactly {} returned {:?} instead of InvalidVarByteInt", what(), blk);
+    }
+    ctx.more_evals(256);
+    ctx.count_distinct(257);
+    ctx.label(&format!("overlong-site:{}", site));
+    if di == 0 {
+        ctx.sample(|| format!("site {}: frames {} .. rejected with InvalidVarByteInt by all front-ends (257 continuations)", site, hex(&overlong_frame(site, &four))));
+    }
+    Ok(())
+}
+
+pub const SUB_OVERLONG: Sub = Sub { name: "c15.inbody-overlong", f: case_inbody_overlong };
 pub const SUB_INBODY: Sub = Sub { name: "c15.inbody", f: case_inbody };
 pub const SUB_VALUES: Sub = Sub { name: "c15.values", f: case_block };
 pub const SUB_INVALID: Sub = Sub { name: "c15.invalid", f: case_invalid };
 pub const SUB_PATTERN: Sub = Sub { name: "c15.patterns", f: case_pattern };
 
 pub fn subs() -> Vec<Sub> {
-    vec![SUB_VALUES, SUB_INVALID, SUB_PATTERN, SUB_INBODY]
+    vec![SUB_VALUES, SUB_INVALID, SUB_PATTERN, SUB_INBODY, SUB_OVERLONG]
 }
 
 fn patterns() -> Vec<Input> {
@@ -603,6 +672,10 @@ pub fn run(env: &mut Env) -> RunResult {
         Input::Nums(vec![typ, wm, ww, ws, i / nc])
     })?;
     env.require("c15.inbody", "inbody:padded");
+    env.run_enum(SUB_OVERLONG, OVERLONG_SITES as u64 * 256, false, |i| Input::Nums(vec![i / 256, i % 256]))?;
+    for sidx in 0..OVERLONG_SITES {
+        env.require("c15.inbody-overlong", &format!("overlong-site:{}", sidx));
+    }
     for t in ["CONNECT", "CONNACK", "PUBACK", "PUBREC", "PUBREL", "PUBCOMP", "UNSUBSCRIBE", "DISCONNECT", "AUTH"] {
         env.require("c15.inbody", &format!("inbody:{}", t));
     }
